@@ -1680,11 +1680,19 @@ pub fn task_campaign(cfg: &Cfg, rep: &mut Report, n: usize) {
     } else {
       let (log, left) = (log.clone(), left.clone());
       let pre_yields = r.below(4);
+      // the owner asks is_closed() on the handle itself before it cancels
+      let samples = r.below(3);
       bodies.push(Box::new(move || {
         for _ in 0..pre_yields {
           conc::yield_now();
         }
         for (t, h) in handles.into_iter().enumerate() {
+          for _ in 0..samples {
+            log.mark(10 + t as u32, "closed_call", 0);
+            let c = h.is_closed();
+            log.mark(10 + t as u32, if c { "closed_true" } else { "closed_false" }, 0);
+            conc::yield_now();
+          }
           log.mark(10 + t as u32, "cancel_call", 0);
           h.unsubscribe();
           log.mark(10 + t as u32, "cancel_ret", 0);
@@ -1752,9 +1760,14 @@ pub fn task_campaign(cfg: &Cfg, rep: &mut Report, n: usize) {
         // the second owner of a shared handle: its unsubscribe() and every is_closed() == true
         // are held to the same standard (the task can no longer act)
         for e in evs.iter().filter(|e| e.id == id) {
+          match &e.k {
+            K::Mark("closed_true", _) => rep.count("is_closed_samples_true", 1),
+            K::Mark("closed_false", _) => rep.count("is_closed_samples_false", 1),
+            _ => {}
+          }
           let what = match &e.k {
             K::Mark("cancel2_ret", _) => "the second owner's unsubscribe() returned",
-            K::Mark("closed_true", _) => "is_closed() returned true to the second owner",
+            K::Mark("closed_true", _) => "is_closed() returned true",
             _ => continue,
           };
           if let Some(run) = run {
